@@ -599,9 +599,8 @@ def select__array_fold_left_right_functions(self: XPathFunction, context: ta.Con
     if self.context is not None:
         context = self.context
 
-    func = self[2][1] if self[2].symbol == ':' else self[2]
-    if not isinstance(func, XPathFunction):
-        func = self.get_argument(context, index=2, cls=XPathFunction, required=True)
+    # The argument is evaluated: it can be any expression that returns a function item
+    func = self.get_argument(context, index=2, cls=XPathFunction, required=True)
     if func.arity != 2:
         raise self.error('XPTY0004', "function arity must be 2")
 
@@ -921,11 +920,7 @@ def evaluate__apply(self: XPathFunction, context: ta.ContextType = None) \
     if self.context is not None:
         context = self.context
 
-    if isinstance(self[0], XPathFunction):
-        func = self[0]
-    else:
-        func = self.get_argument(context, required=True, cls=XPathFunction)
-
+    func = self.get_argument(context, required=True, cls=XPathFunction)
     array_ = self.get_argument(context, index=1, required=True, cls=XPathArray)
 
     try:
